@@ -346,6 +346,8 @@ def translate(inventory, outdir):
             if name in PLAN_REFUTATIONS:
                 wit = "; ".join(f"({cstr(k)}, {v})" for k, v in PLAN_REFUTATIONS[name])
                 pobl_v.append(f"Lemma {idn}_refuted : prefuted {idn}.\nProof. prule_refuted [{wit}]. Qed.")
+                # (unsound, but its result can still be built: C17's concern)
+                pobl_v.append(f"Lemma {idn}_buildable : pbuildable {idn}.\nProof. first [prule_buildable_hj | prule_buildable]. Qed.")
                 prefuted_ids.append(idn)
                 info["plan_refuted"][name] = dict(PLAN_REFUTATIONS[name])
                 for ty in PLAN_INSTANCES.get(name, []):
@@ -419,6 +421,11 @@ def translate(inventory, outdir):
     term = "(Forall_nil _)"
     for i in reversed(prefuted_ids):
         term = f"(Forall_cons _ {i}_refuted {term})"
+    pobl_v.append(f"Proof. exact {term}. Qed.")
+    pobl_v.append("Lemma prefuted_rules_buildable : Forall pbuildable prefuted_rules.")
+    term = "(Forall_nil _)"
+    for i in reversed(prefuted_ids):
+        term = f"(Forall_cons _ {i}_buildable {term})"
     pobl_v.append(f"Proof. exact {term}. Qed.")
     rules_v.append("")
     rules_v.append(f"Definition all_rule_names : list string := [{'; '.join(cstr(n) for n in all_names)}].")
